@@ -43,7 +43,8 @@ MC_CONC_NEG = mc_conc({}, {}, asbuilt=True, expect_violation=True, thorough_only
 # schema changes between transactions: indexes / sorted indexes / triggers created late and dropped, columns dropped and re-created
 MC_SCHEMA = {'module': 'MCColumn', 'cfg': 'MC_Schema.cfg',
              'constants': {'MAXOPS': '1', 'LAYOUTS': 'Layout02', 'IDX': 'IdxNone', 'SORT': 'NoDefs', 'LATE': 'LateQuick'},
-             'quick': {}, 'thorough': {'LATE': 'LateCols', 'IDX': 'IdxInt', 'SORT': 'SortS', 'MAXOPS': '2'}, 'timeout': 3000}
+             'quick': {}, 'thorough': {'MAXOPS': '2'}, 'timeout': 3000}     # thorough: 3.9 M states, about 4 min
+MC_SCHEMA_COLS = dict(MC_SCHEMA, thorough={'LATE': 'LateCols', 'IDX': 'IdxInt', 'SORT': 'SortS', 'LAYOUTS': 'LayoutSome'}, thorough_only=True)
 
 MC_KEYS_STRICT = mc_conc({'MAXOPS': '2', 'LAYOUTS': 'LayoutSome', 'TRANSPORT': 'log'}, {'MAXOPS': '3', 'LAYOUTS': 'LayoutSome', 'TRANSPORT': 'log'}, cfg='MC_Keys.cfg')
 MC_KEYS_ASBUILT = mc_conc({'MAXOPS': '2', 'TRANSPORT': 'log'}, {'MAXOPS': '2', 'LAYOUTS': 'LayoutSome', 'TRANSPORT': 'log'}, cfg='MC_Keys.cfg', asbuilt=True, thorough_only=True)
@@ -53,9 +54,9 @@ MC_SNAP_FAIL = mc_conc({'MAXOPS': '1', 'TRANSPORT': 'log', 'SNAPFAILS': 'TRUE'},
 MC_SNAP_ASBUILT = mc_conc({'MAXOPS': '1', 'TRANSPORT': 'log', 'SNAPFAILS': 'FALSE'}, {'MAXOPS': '1', 'TRANSPORT': 'log', 'SNAPFAILS': 'TRUE'}, cfg='MC_Snap.cfg', asbuilt=True, thorough_only=True, timeout=3000)
 
 PROPS = {
-    'C01': seq_prop('c01', 150, 2500, mc=[MC_STORE_STRICT, MC_STORE_ASBUILT, MC_STORE_NEG, MC_SCHEMA]),
+    'C01': seq_prop('c01', 150, 2500, mc=[MC_STORE_STRICT, MC_STORE_ASBUILT, MC_STORE_NEG, MC_SCHEMA, MC_SCHEMA_COLS]),
     'C02': seq_prop('c02', 120, 2000, mc=[MC_ATOMIC], more=[fam('conc', 'c02', 16, 300)]),
-    'C03': seq_prop('c03', 150, 2500, mc=[MC_STORE_STRICT, MC_STORE_ASBUILT, MC_SCHEMA]),
+    'C03': seq_prop('c03', 150, 2500, mc=[MC_STORE_STRICT, MC_STORE_ASBUILT, MC_SCHEMA, MC_SCHEMA_COLS]),
     'C04': {'level': 'model_checking', 'mc': [], 'trace': COLUMN_TRACE, 'assumptions': [],
             'families': [
                 fam('filt', 'tlc', 40, 60, gen={'module': 'GenFilter', 'cfg': 'GenFilter.cfg', 'arg': '-chains', 'cover': 60,
@@ -91,7 +92,7 @@ PROPS = {
                          fam('truncbig', 'all', 0, 8, shards=8, trace={'module': 'PrefixTrace', 'cfg': 'PrefixTrace.cfg'})], 'trace': COLUMN_TRACE, 'assumptions': []},
     'C14': {'level': 'model_checking', 'mc': [MC_SNAP_FAIL], 'families': [fam('fault', 'c14', 12, 12, shards=6), fam('fault', 'c14t', 0, 6, shards=6)], 'trace': COLUMN_TRACE, 'assumptions': []},
     'C15': seq_prop('c15', 100, 2000, mc=[MC_CONC_STRICT], more=[fam('conc', 'c15', 32, 500)]),
-    'C16': seq_prop('c16', 150, 2500, mc=[MC_STORE_STRICT, MC_SCHEMA]),
+    'C16': seq_prop('c16', 150, 2500, mc=[MC_STORE_STRICT, MC_SCHEMA, MC_SCHEMA_COLS]),
     'C17': {'level': 'model_checking', 'assumptions': ['wall-clock: removals are timestamped inside the logger callback; "must be gone" leaves 10 intervals + 3 s of slack'],
             'mc': [{'module': 'Expire', 'cfg': 'MC_Expire.cfg', 'constants': {}, 'quick': {'R3': ''}, 'thorough': {'R3': ', r3'}, 'deadlock': True},
                    {'module': 'Expire', 'cfg': 'MC_Expire.cfg', 'constants': {}, 'quick': {'R3': ''}, 'thorough': {'R3': ', r3'}, 'asbuilt': True, 'deadlock': True}],
@@ -105,5 +106,5 @@ PROPS = {
                    {'module': 'MCLocks', 'cfg': 'MC_Locks.cfg', 'constants': {'RACY': '{"colList", "registry", "data0", "idxFill"}', 'PROPS': 'PROPERTIES Termination', 'THREADS': '{"reader", "writer0", "ins"}'},
                     'quick': {}, 'thorough': {}, 'deadlock': True, 'thorough_only': True}],
             'trace': {'module': 'LocksTrace', 'cfg': 'LocksTrace.cfg'}, 'families': []},
-    'C19': seq_prop('c19', 150, 2500, mc=[MC_STORE_STRICT, MC_SCHEMA]),
+    'C19': seq_prop('c19', 150, 2500, mc=[MC_STORE_STRICT, MC_SCHEMA, MC_SCHEMA_COLS]),
 }
